@@ -26,6 +26,17 @@ long sched_nchoices(const Scheduler* s);
 const int* sched_choices(const Scheduler* s);       // the schedule that was executed (replayable)
 void sched_pair_matrix(const Scheduler* s, long out[8][8]); // event kinds adjacent across a context switch
 
+// pre-emption at basic-block edges (TSan build: library TUs carry -fsanitize-coverage=trace-pc-guard).
+// mean_gap = 0 and no explicit gaps: off. A task thread attaches itself after sched_task_begin().
+void sched_set_edge(Scheduler* s, long mean_gap, const long* explicit_gaps, long nexplicit);
+void sched_edge_attach(Scheduler* s, int task);
+void sched_edge_detach();
+long sched_edge_yields(const Scheduler* s);
+long sched_edges_seen(const Scheduler* s);
+long sched_ngaps(const Scheduler* s);
+int sched_overflow(const Scheduler* s);               // a decision log overflowed: not replayable
+const long* sched_gaps(const Scheduler* s);          // the gaps that were used (replayable)
+
 // sanitizer finding counter (incremented from __asan_on_error / __tsan_on_report / __ubsan_on_report)
 long sanitizer_reports();
 void sanitizer_reports_reset();
